@@ -33,7 +33,7 @@ import gemato.openpgp
 from gemato.manifest import ManifestFile
 from gemato.openpgp import GNUPG, GNUPGCONF, IsolatedGPGEnvironment, SystemGPGEnvironment
 
-from gverif import gem, refverify
+from gverif import gem, refverify, seams
 from gverif import refmanifest as rm
 from gverif.common import fresh_root
 from gverif.evidence import Stats
@@ -212,13 +212,13 @@ def fake_verify(text):
     return fpr
 
 
-class _FakeProc:
+class _FakeProc(seams.PopenLike):
     def __init__(self, owner, argv):
         self.owner = owner
         self.argv = argv
         self.returncode = None
 
-    def communicate(self, input=None):          # noqa: A002 - subprocess API
+    def communicate(self, input=None, timeout=None):          # noqa: A002 - subprocess API
         o = self.owner
         data = input if isinstance(input, (bytes, bytearray)) else (input or '').encode('utf8')
         data = bytes(data)
@@ -293,16 +293,19 @@ class FakeGpg:
                                      STDOUT=subprocess.STDOUT)
 
 
-class _RecProc:
+class _RecProc(seams.PopenLike):
     def __init__(self, owner, argv, proc):
         self.owner = owner
         self.argv = argv
         self.proc = proc
 
-    def communicate(self, input=None):          # noqa: A002 - subprocess API
+    def communicate(self, input=None, timeout=None):          # noqa: A002 - subprocess API
         if '--clearsign' in self.argv:
             self.owner.signs.append((list(self.argv), bytes(input or b'')))
-        return self.proc.communicate(input)
+        return self.proc.communicate(input, timeout)
+
+    def __exit__(self, *a):
+        return self.proc.__exit__(*a)
 
     def wait(self, timeout=None):
         return self.proc.wait(timeout)
